@@ -195,6 +195,11 @@ fn main() {
                 }
             }
         }
+        "selftest" => {
+            let runs = arg_after(&args, "--runs").and_then(|s| s.parse().ok()).unwrap_or(300);
+            let ids: Vec<String> = args[2..].iter().filter(|a| a.starts_with('C')).cloned().collect();
+            std::process::exit(engine::selftest_main(&ids, runs, env_seed));
+        }
         "builds" => {
             if let Some(def) = args.get(2).and_then(|id| props::find(id)) {
                 for b in def.sub_builds {
